@@ -140,6 +140,10 @@ def canon(v):
         return v
     if v is None:
         return NONE
+    if isinstance(v, Arr):
+        return "~arr"
+    if isinstance(v, dict) and v == {"decision": "x"}:
+        return "~dict"
     if isinstance(v, list) and any(x is v for x in v):
         return "~cyc"                      # a self-referential list (see pyval)
     if isinstance(v, (list, tuple)):
@@ -160,7 +164,23 @@ def answer_text(nd, j):
     return nd["answers"][j] if nd.get("answers") else f"ans.{nd['name']}.{nd['outputs'][j]}"
 
 
+class Arr:
+    """A numpy-like value: comparing two of them has no truth value (== / != raise), like an array."""
+
+    def __eq__(self, other):
+        raise ValueError("The truth value of an array with more than one element is ambiguous")
+
+    def __ne__(self, other):
+        raise ValueError("The truth value of an array with more than one element is ambiguous")
+
+    __hash__ = object.__hash__
+
+
 def pyval(text):
+    if text == "~arr":
+        return Arr()
+    if text == "~dict":                    # a dict-valued value (an interrupt's answer may well be a dict)
+        return {"decision": "x"}
     if text == "~cyc":                     # a value with a reference cycle: a list that contains itself
         cyc = []
         cyc.append(cyc)
